@@ -275,7 +275,7 @@ class Real:
             if "rekey" in kvs:
                 # open with the sender's key, re-seal with the attacker's / other session's key
                 hb = d[:20]
-                pt = self.crypto.decrypt_gcm(key_of[(e, int(k))], hb[:12], hb, d[20:])
+                pt = eps[e]["plain"][int(k)]          # the plaintext of that emission (kept when it was built)
                 d = hb + self.crypto.encrypt_gcm(bytes.fromhex(kvs["rekey"]), hb[:12], hb, pt)
         else:
             d = b"" if spec == "-" else bytes.fromhex(spec)
@@ -414,10 +414,13 @@ class CaseRun:
                     d = conn._encode_packet(pkt)
                     key = conn.session_key_bytes
                     sealed = bool(key) and pkt.hdr.pkt_type != C.PacketType.SERVER_HELLO
+                    aad_ok = True
                     if sealed:
-                        # "opens under the session key with nonce = bytes 0..11 and AAD = bytes 0..19"
-                        pt = real.crypto.decrypt_gcm(key, d[:12], d[:20], d[20:])
-                        assert pt == pkt.msg
+                        # "opens under the session key with nonce = bytes 0..11 and AAD = bytes 0..19" (stated by the C01/C03 monitors)
+                        try:
+                            aad_ok = real.crypto.decrypt_gcm(key, d[:12], d[:20], d[20:]) == pkt.msg
+                        except Exception:
+                            aad_ok = False
                     h = pkt.hdr
                     line = ("pkt ty=%d seq=%d ack=%d bits=%d count=%d len=%d sealed=%d ct=%d pt=%s dlen=%d hdr=%s" % (
                         h.pkt_type.value, int(h.seq), int(h.ack), h.ack_bits, h.count, h.length, 1 if sealed else 0,
@@ -426,12 +429,13 @@ class CaseRun:
                         line += " dcrc=%d" % (binascii.crc32(d) & 0xFFFFFFFF)
                     out.append(line)
                     self.key_of[(w[1], len(ep["emits"]))] = key
+                    ep.setdefault("plain", []).append(pkt.msg)
                     ep["emits"].append(d)
                     if log is not None:
                         log.append({"op": "build", "e": w[1], "t": real.now, "pkt": {
                             "k": len(ep["emits"]) - 1, "ty": h.pkt_type.value, "seq": int(h.seq), "ack": int(h.ack),
                             "bits": h.ack_bits, "count": h.count, "dlen": len(d), "sealed": sealed, "nonce": d[:12].hex(),
-                            "key": key.hex() if key else None, "mtu": C.Packet.MTU,
+                            "key": key.hex() if key else None, "mtu": C.Packet.MTU, "aad_ok": aad_ok,
                             "msgs": [(int(m.seq), m.type.value, digest(m.payload)) for m in pkt.msgs]}})
             except Exception as e:
                 out.append("err:" + type(e).__name__)
@@ -958,7 +962,7 @@ def gen_handshake(real, rng, cid, script=None):
     t = BASE_T + rng.randint(0, 3000)
     script = script or rng.choice(["honest", "honest", "flip-client-hello", "flip-server-hello", "foreign-root", "resigned", "other-session",
                                     "wrong-token", "other-key-challenge", "dup-reorder", "tofu", "pinned-other", "trunc-ext", "early-app",
-                                    "no-answer", "stacked"])
+                                    "no-answer", "stacked", "early-send"])
 
     def emit(line):
         o = run.exec(line)
@@ -993,6 +997,9 @@ def gen_handshake(real, rng, cid, script=None):
             emit("set s2 si=16 ka=96 ot=1024")
         t += 5
         emit("hello c t=%d" % t)
+        if script == "early-send":
+            # the application calls send() while the handshake is in flight: nothing of it may leave before a key exists
+            emit("send c len=%d seed=%d retry=%d cb=-" % (rng.choice([5, 11, 14, 40, 200]), rng.randint(1, 9999), rng.choice([0, 1, -1])))
         kc = built("c")
         dlen = len(run.eps["c"]["emits"][kc])
         if script == "no-answer":
@@ -1035,6 +1042,14 @@ def gen_handshake(real, rng, cid, script=None):
         deliver("s", "c", kc)
         if script == "dup-reorder":
             deliver("s", "c", kc)
+        if script == "early-send":
+            # ... and on the server side between the client hello and the datagram that carries the server hello
+            emit("send s len=%d seed=%d retry=%d cb=-" % (rng.choice([5, 40, 200]), rng.randint(1, 9999), rng.choice([0, 1, -1])))
+            for _ in range(rng.randint(0, 2)):
+                emit("send c len=%d seed=%d retry=0 cb=-" % (rng.choice([5, 40, 300]), rng.randint(1, 9999)))
+                kx = built("c")
+                if kx is not None:
+                    deliver("s", "c", kx)
         ks = built("s")
         if script == "stacked" and ks is not None:
             # the genuine server hello followed by an unauthenticated application message, towards the client
@@ -1120,3 +1135,20 @@ def gen_handshake(real, rng, cid, script=None):
         run.close()
     lines.append("end")
     return lines, outs, log
+
+def sealing_monitor(case, log, ctx):
+    """every datagram emitted while a key is held (other than the server hello) opens under that key with nonce = its bytes 0..11 and the
+    whole 20-byte header as associated data: no header field travels unauthenticated"""
+    builds = [i for i, l in enumerate(case) if l.startswith("build ")]
+    b = -1
+    for rec in log:
+        if rec["op"] != "build":
+            continue
+        b += 1
+        p = rec.get("pkt")
+        if p and p.get("sealed") and p.get("aad_ok") is False:
+            ctx.failure("header-not-authenticated", "datagram %d of %s (type %d) was emitted under the session key but does not open with "
+                        "nonce = bytes 0..11 and AAD = bytes 0..19: part of the header is not covered by the tag" % (p["k"], rec["e"], p["ty"]),
+                        {"case": case, "at": (builds[b] - 1) if b < len(builds) else len(case) - 2})
+            return True
+    return False
